@@ -249,7 +249,7 @@ func main() {
 }
 
 func keys(m map[string]*fnInfo) []string {
-	var ks []string
+	ks := []string{}
 	for k := range m {
 		ks = append(ks, k)
 	}
